@@ -133,3 +133,152 @@ Section Proofs.
   Lemma ige_iv_state_eq x y : ige_iv_state (x, y) = y ++ x.
   Proof. reflexivity. Qed.
 End Proofs.
+
+(* ================================ CFB, CFB-8, OFB ================================ *)
+Lemma map2_xor_in2out cs ks :
+  map2 xor_in2out cs ks = map2 wr_out cs (map2 xorb (map rd_in cs) ks).
+Proof. revert ks; induction cs as [|c cs IH]; intros [|k ks]; simpl; auto. now rewrite IH. Qed.
+
+Section Proofs2.
+  Variable C : cipher.
+  Let E := c_E C.
+
+  Lemma cfb_enc_fold s cs :
+    fold_cells (cfb_enc_block C) s cs =
+    (last (map E (cfb_enc_st E s (map rd_in cs))) s, map2 wr_out cs (cfb_enc_st E s (map rd_in cs))).
+  Proof.
+    revert s; induction cs as [|c cs IH]; intros s; [reflexivity|].
+    cbn [fold_cells map cfb_enc_st]. unfold cfb_enc_block at 1. cbn [xor_in2out rd_out wr_out cout].
+    rewrite IH. rewrite last_cons_default. reflexivity.
+  Qed.
+
+  Lemma cfb_dec_fold s cs :
+    fold_cells (cfb_dec_block C) s cs =
+    (last (map E (map rd_in cs)) s, map2 wr_out cs (cfb_dec_st E s (map rd_in cs))).
+  Proof.
+    revert s; induction cs as [|c cs IH]; intros s; [reflexivity|].
+    cbn [fold_cells map cfb_dec_st]. unfold cfb_dec_block at 1. cbn [xor_in2out].
+    rewrite IH. rewrite last_cons_default. reflexivity.
+  Qed.
+
+  Lemma cfb_dec_st_zip s ins : map2 xorb ins (s :: map E ins) = cfb_dec_st E s ins.
+  Proof. revert s; induction ins as [|x ins IH]; intros s; simpl; auto. now rewrite IH. Qed.
+
+  (* the hand-written parallel body of cfb_mode::Decryptor is the single-block loop *)
+  Lemma cfb_dec_par_ok s cs : cfb_dec_par C s cs = fold_cells (cfb_dec_block C) s cs.
+  Proof. rewrite cfb_dec_fold. unfold cfb_dec_par. rewrite map2_xor_in2out, cfb_dec_st_zip. reflexivity. Qed.
+
+  Theorem cfb_enc_sched sched s cs : sched_total sched = length cs ->
+    run_sched (cfb_enc_block C) cfb_enc_w (cfb_enc_par C) s sched cs =
+    (last (map E (cfb_enc_st E s (map rd_in cs))) s, map2 wr_out cs (cfb_enc_st E s (map rd_in cs))).
+  Proof. intros H. rewrite run_sched_fold; auto using cfb_enc_fold. Qed.
+
+  Theorem cfb_dec_sched sched s cs : sched_total sched = length cs ->
+    run_sched (cfb_dec_block C) (cfb_dec_w C) (cfb_dec_par C) s sched cs =
+    (last (map E (map rd_in cs)) s, map2 wr_out cs (cfb_dec_st E s (map rd_in cs))).
+  Proof. intros H. rewrite run_sched_fold; auto using cfb_dec_fold. intros; apply cfb_dec_par_ok. Qed.
+
+  (* ---- CFB-8 ---- *)
+  Lemma cfb8_enc_fold s cs :
+    fold_cells (cfb8_enc_block C) s cs =
+    (cfb8_breg s (cfb8_enc_bspec E s (map rd_in cs)), map2 wr_out cs (cfb8_enc_bspec E s (map rd_in cs))).
+  Proof.
+    revert s; induction cs as [|c cs IH]; intros s; [reflexivity|].
+    cbn [fold_cells map cfb8_enc_bspec cfb8_breg]. unfold cfb8_enc_block at 1. cbn [xor_in2out rd_out wr_out cout].
+    rewrite IH. reflexivity.
+  Qed.
+
+  Lemma cfb8_dec_fold s cs :
+    fold_cells (cfb8_dec_block C) s cs =
+    (cfb8_breg s (map rd_in cs), map2 wr_out cs (cfb8_dec_bspec E s (map rd_in cs))).
+  Proof.
+    revert s; induction cs as [|c cs IH]; intros s; [reflexivity|].
+    cbn [fold_cells map cfb8_dec_bspec cfb8_breg]. unfold cfb8_dec_block at 1. cbn [xor_in2out].
+    rewrite IH. reflexivity.
+  Qed.
+
+  Theorem cfb8_enc_sched sched s cs : sched_total sched = length cs ->
+    run_sched (cfb8_enc_block C) cfb8_enc_w (cfb8_enc_par C) s sched cs =
+    (cfb8_breg s (cfb8_enc_bspec E s (map rd_in cs)), map2 wr_out cs (cfb8_enc_bspec E s (map rd_in cs))).
+  Proof. intros H. rewrite run_sched_fold; auto using cfb8_enc_fold. Qed.
+
+  Theorem cfb8_dec_sched sched s cs : sched_total sched = length cs ->
+    run_sched (cfb8_dec_block C) cfb8_dec_w (cfb8_dec_par C) s sched cs =
+    (cfb8_breg s (map rd_in cs), map2 wr_out cs (cfb8_dec_bspec E s (map rd_in cs))).
+  Proof. intros H. rewrite run_sched_fold; auto using cfb8_dec_fold. Qed.
+
+  (* one-byte blocks: the block-level recurrence is the byte-level one of the property statement *)
+  Definition singles (l : list N) : list block := map (fun b => [b]) l.
+
+  Hypothesis E_len : forall x, length x = c_bs C -> length (E x) = c_bs C.
+  Hypothesis bs_pos : 0 < c_bs C.
+
+  Lemma firstn1_hd (x : block) : 0 < length x -> firstn 1 x = [hd 0%N x].
+  Proof. destruct x; simpl; intros; [lia|reflexivity]. Qed.
+
+  Lemma shift_length s (c : N) : length s = c_bs C -> length (skipn 1 s ++ [c]) = c_bs C.
+  Proof. intros H. rewrite app_length, skipn_length. simpl. lia. Qed.
+
+  Lemma cfb8_enc_bytes s ps : length s = c_bs C ->
+    cfb8_enc_bspec E s (singles ps) = singles (cfb8_enc_spec E s ps).
+  Proof.
+    revert s; induction ps as [|p ps IH]; intros s Hs; [reflexivity|].
+    cbn [singles map cfb8_enc_bspec cfb8_enc_spec]. rewrite firstn1_hd by (rewrite E_len; auto).
+    cbn [xorb firstn]. f_equal. fold (singles ps). rewrite IH; auto using shift_length.
+  Qed.
+
+  Lemma cfb8_dec_bytes s cs : length s = c_bs C ->
+    cfb8_dec_bspec E s (singles cs) = singles (cfb8_dec_spec E s cs).
+  Proof.
+    revert s; induction cs as [|c cs IH]; intros s Hs; [reflexivity|].
+    cbn [singles map cfb8_dec_bspec cfb8_dec_spec]. rewrite firstn1_hd by (rewrite E_len; auto).
+    cbn [xorb firstn]. f_equal. fold (singles cs). rewrite IH; auto using shift_length.
+  Qed.
+
+  Lemma cfb8_breg_bytes s cs : cfb8_breg s (singles cs) = cfb8_reg s cs.
+  Proof. revert s; induction cs as [|c cs IH]; intros s; [reflexivity|]. cbn [singles map cfb8_breg cfb8_reg firstn]. apply IH. Qed.
+End Proofs2.
+
+Section Proofs3.
+  Variable C : cipher.
+  Let E := c_E C.
+
+  (* ---- OFB ---- *)
+  Lemma iter_E_shift n s : iter_E E n (E s) = E (iter_E E n s).
+  Proof. induction n as [|n IH]; simpl; auto. now rewrite IH. Qed.
+
+  Lemma ofb_enc_fold s cs :
+    fold_cells (ofb_enc_block C) s cs =
+    (iter_E E (length cs) s, map2 wr_out cs (ofb_spec E s (map rd_in cs))).
+  Proof.
+    revert s; induction cs as [|c cs IH]; intros s; [reflexivity|].
+    cbn [fold_cells map ofb_spec length]. unfold ofb_enc_block at 1. cbn [xor_in2out]. rewrite IH.
+    now rewrite iter_E_shift.
+  Qed.
+
+  Lemma ofb_dec_fold s cs :
+    fold_cells (ofb_dec_block C) s cs =
+    (iter_E E (length cs) s, map2 wr_out cs (ofb_spec E s (map rd_in cs))).
+  Proof. apply ofb_enc_fold. Qed.
+
+  Theorem ofb_enc_sched sched s cs : sched_total sched = length cs ->
+    run_sched (ofb_enc_block C) ofb_w (ofb_enc_par C) s sched cs =
+    (iter_E E (length cs) s, map2 wr_out cs (ofb_spec E s (map rd_in cs))).
+  Proof. intros H. rewrite run_sched_fold; auto using ofb_enc_fold. Qed.
+
+  Theorem ofb_dec_sched sched s cs : sched_total sched = length cs ->
+    run_sched (ofb_dec_block C) ofb_w (ofb_dec_par C) s sched cs =
+    (iter_E E (length cs) s, map2 wr_out cs (ofb_spec E s (map rd_in cs))).
+  Proof. intros H. rewrite run_sched_fold; auto using ofb_dec_fold. Qed.
+
+  (* keystream view: O_i = E^i(IV), output = input xor keystream *)
+  Lemma ofb_spec_ks s ps : ofb_spec E s ps = map2 xorb ps (ofb_ks E s (length ps)).
+  Proof. revert s; induction ps as [|p ps IH]; intros s; simpl; auto. now rewrite IH. Qed.
+
+  Lemma ofb_ks_nth s n i : i < n -> nth i (ofb_ks E s n) [] = iter_E E (S i) s.
+  Proof.
+    revert s i; induction n as [|n IH]; intros s i H; [lia|].
+    destruct i as [|i]; [reflexivity|]. cbn [ofb_ks nth]. rewrite IH by lia.
+    cbn [iter_E]. now rewrite iter_E_shift.
+  Qed.
+End Proofs3.
